@@ -21,65 +21,74 @@ Print Assumptions C11_src_calls_are_coded.
 
 (* ------------------------------------------------------------------ range checker *)
 
-(* accepted => equal extent in every compared dimension and target range inside the target *)
-Definition C11_checker_sound_full : Prop := checker_sound_full src_checker.
-(* equal extents inside the target => accepted *)
-Definition C11_checker_complete_full : Prop := checker_complete_full src_checker.
+(* for all declared ranges (ordered, non-negative numbers; absent components allowed), target sizes
+   and readout counts:
+   accepted => equal extent in every compared dimension and target range inside the target *)
+Theorem C11_checker_sound : checker_sound_full src_checker.
+Proof. rewrite C11_src_checker_is_coded. exact coded_sound. Qed.
+Print Assumptions C11_checker_sound.
 
-(* target rows 0..5 / result rows 2..5 (3 rows) is accepted *)
-Theorem C11_checker_sound_refuted : ~ C11_checker_sound_full.
-Proof. unfold C11_checker_sound_full. rewrite C11_src_checker_is_coded. exact coded_sound_refuted. Qed.
-Print Assumptions C11_checker_sound_refuted.
+(* equal extents inside the target => accepted (shifted ranges and absent components included) *)
+Theorem C11_checker_complete : checker_complete_full src_checker.
+Proof. rewrite C11_src_checker_is_coded. exact coded_complete. Qed.
+Print Assumptions C11_checker_complete.
 
-(* target rows 0..5 / result rows 3..8 (5 rows each) is rejected *)
-Theorem C11_checker_complete_refuted : ~ C11_checker_complete_full.
-Proof. unfold C11_checker_complete_full. rewrite C11_src_checker_is_coded. exact coded_complete_refuted. Qed.
-Print Assumptions C11_checker_complete_refuted.
-
-(* no range declared (the default configuration): legitimate, yet the checker raises TypeError *)
-Theorem C11_checker_absent_refuted :
-  in_domain w_absent_t w_absent_o 5 5 None = true /\
-  spec_ok w_absent_t w_absent_o 5 5 None = true /\
-  check src_checker (Some w_absent_t) (Some w_absent_o) 5 5 None = Crash.
-Proof. rewrite C11_src_checker_is_coded. exact coded_absent_crashes. Qed.
-Print Assumptions C11_checker_absent_refuted.
-
-(* strongest true restriction: when every compared stop is given and result and target ranges start
-   at the same index, the checker accepts exactly the pairs of equal extent inside the target *)
-Theorem C11_checker_partial : forall t o rows cols times,
-  in_domain t o rows cols times = true -> anchored t o = true ->
+(* together: the checker decides exactly the specification *)
+Theorem C11_checker_decides : forall t o rows cols times,
+  in_domain t o rows cols times = true ->
   (check src_checker (Some t) (Some o) rows cols times = Accept <-> spec_ok t o rows cols times = true).
-Proof. rewrite C11_src_checker_is_coded. exact coded_partial. Qed.
-Print Assumptions C11_checker_partial.
+Proof.
+  intros t o rows cols times Hd. split.
+  - apply C11_checker_sound; exact Hd.
+  - apply C11_checker_complete; exact Hd.
+Qed.
+Print Assumptions C11_checker_decides.
 
-Example C11_checker_partial_nonvacuous_accept :
+(* non-vacuity: accepted and rejected instances inside the domain; the formerly failing inputs
+   (unequal extent with equal stops / shifted equal extent / nothing declared) now come out right *)
+Example C11_checker_nonvacuous_accept :
   let t := FR2 (Some 1, Some 3)%Z (Some 0, Some 4)%Z in
-  let o := FR3 (None, None) (Some 1, Some 3)%Z (None, Some 4)%Z in
-  in_domain t o 3 4 None = true /\ anchored t o = true /\ spec_ok t o 3 4 None = true /\
+  let o := FR3 (None, None) (Some 4, Some 6)%Z (None, Some 4)%Z in
+  in_domain t o 3 4 None = true /\ spec_ok t o 3 4 None = true /\
   check src_checker (Some t) (Some o) 3 4 None = Accept.
 Proof. vm_compute. auto. Qed.
 
-Example C11_checker_partial_nonvacuous_reject :
+Example C11_checker_nonvacuous_reject :
   let t := FR3 (Some 0, Some 3)%Z (Some 1, Some 3)%Z (Some 0, Some 5)%Z in
   let o := FR3 (Some 0, Some 3)%Z (Some 1, Some 3)%Z (Some 0, Some 5)%Z in
-  in_domain t o 3 4 (Some 3%Z) = true /\ anchored t o = true /\ spec_ok t o 3 4 (Some 3%Z) = false /\
+  in_domain t o 3 4 (Some 3%Z) = true /\ spec_ok t o 3 4 (Some 3%Z) = false /\
   check src_checker (Some t) (Some o) 3 4 (Some 3%Z) = Reject.
 Proof. vm_compute. auto. Qed.
+
+Example C11_checker_former_witnesses :
+  check src_checker (Some w_sound_t) (Some w_sound_o) 5 5 None = Reject /\
+  check src_checker (Some w_compl_t) (Some w_compl_o) 5 5 None = Accept /\
+  in_domain w_absent_t w_absent_o 5 5 None = true /\
+  check src_checker (Some w_absent_t) (Some w_absent_o) 5 5 None = Accept.
+Proof. vm_compute. auto. Qed.
+
+(* the statements are discriminating: the comparisons of the tree before the repair (stop indices
+   compared, absent components not handled) satisfy neither *)
+Example C11_checker_statements_exclude_legacy :
+  ~ checker_sound_full legacy_checker /\ ~ checker_complete_full legacy_checker /\
+  check legacy_checker (Some w_absent_t) (Some w_absent_o) 5 5 None = Crash.
+Proof.
+  split; [exact legacy_sound_refuted | split; [exact legacy_complete_refuted | apply legacy_absent_crashes]].
+Qed.
 
 (* ------------------------------------------------------------------ ranges exceeding the target *)
 
 (* whatever the result range, the geometry of the detector and the readout: if the constructor's
-   call of check_fit_ranges accepts a (well-formed) target range, that range lies inside the target
-   data read from file, in every dimension it names *)
+   call of check_fit_ranges accepts a target range, that range lies inside the target data read
+   from file (0 <= start <= stop <= size), in every dimension it names *)
 Theorem C11_ctor_rejects_exceeding : forall c sims,
-  wf_range (fc_trng c) = true ->
   ctor_check src_checker src_calls c sims = Accept -> target_inside c = true.
 Proof. rewrite C11_src_checker_is_coded, C11_src_calls_are_coded. exact coded_ctor_inside. Qed.
 Print Assumptions C11_ctor_rejects_exceeding.
 
 (* ... so no problem object exists (nothing is optimised) for a target range exceeding the target *)
 Theorem C11_exceeding_never_optimised : forall c sims,
-  fc_bypass c = false -> wf_range (fc_trng c) = true ->
+  fc_bypass c = false ->
   model_fit src_checker src_calls c sims <> OCtor -> target_inside c = true.
 Proof. rewrite C11_src_checker_is_coded, C11_src_calls_are_coded. exact coded_model_fit_inside. Qed.
 Print Assumptions C11_exceeding_never_optimised.
